@@ -559,6 +559,16 @@ func (c *Config) AssignTimestamps(t *rapid.T, aus []AccessUnit) {
 			hi = cur
 		}
 	}
+	if hi-lo > 0xffffffff {
+		// several huge steps used up the whole 32-bit range (about 1 case in 250 000):
+		// fall back to plain frame-rate steps, which always fit
+		cur, lo, hi = 0, 0, 0
+		for i := 1; i < len(aus); i++ {
+			cur += base
+			rel[i] = cur
+			hi = cur
+		}
+	}
 	// start so that start+lo >= 0 and start+hi <= 2^32-1
 	minStart, maxStart := -lo, int64(0xffffffff)-hi
 	var start int64
